@@ -9,6 +9,7 @@ from crosshair import realize
 import yamlpath.commands.yaml_get as yg
 import yamlpath.commands.yaml_diff as yd
 import yamlpath.commands.yaml_validate as yv
+import yamlpath.commands.yaml_paths as yp
 from yamlpath.common import Parsers
 
 from vf.common import cmap, cseq
@@ -16,16 +17,19 @@ from vf.shard import shard, note
 
 PID = "C16"
 FILES = ["yamlpath/commands/yaml_get.py", "yamlpath/commands/yaml_diff.py", "yamlpath/commands/yaml_validate.py",
+         "yamlpath/commands/yaml_paths.py",
          "yamlpath/common/parsers.py", "yamlpath/wrappers/consoleprinter.py", "yamlpath/differ/differ.py", "yamlpath/processor.py"]
 FUNCTIONS = ["yaml_get.main/processcli/validateargs (real argparse over sys.argv)", "EYAMLProcessor.get_eyaml_values",
              "Parsers.jsonify_yaml_data", "yaml_diff.main/get_docs/get_doc/print_report", "Differ.compare_to/get_report",
-             "yaml_validate.main/process_file", "ConsolePrinter.info/error/critical"]
+             "yaml_validate.main/process_file", "ConsolePrinter.info/error/critical",
+             "yaml_paths.main/validateargs/process_yaml_file/print_results/get_search_term/search_for_paths"]
 STUBS = ["document loading: Parsers.get_yaml_data / get_yaml_multidoc_data return harness-built documents (ruamel's scanner "
          "on symbolic bytes is beyond the engine)", "isfile() answers True for the harness file names; stdin is a tty"]
 OUTSIDE = ["leaves outside [-2,2] ([-1,1] for yaml-diff): printing realises every value, so the leaf domain is enumerated",
            "yaml-set's reloaded file, yaml-merge output formats, file-versus-stdin equivalence, YAML/JSON input parsing, "
            "free symbolic argv strings: these clauses of C16 need real bytes through ruamel's loader/dumper and get no "
-           "verdict from this technique", "yaml-paths stdout relay (search itself: C07)"]
+           "verdict from this technique", "yaml-paths: the search semantics proper are C07's; here the relay from results to "
+           "stdout lines (file/document prefix, expression tag, value column, --except filtering, de-duplication, exit status)"]
 ASSUMPTIONS = ["expected stdout/exit status computed from the harness document by a direct model"]
 
 
@@ -170,6 +174,55 @@ def validate_main(n1: int, n2: int, bad1: int, bad2: int) -> bool:
     return all_ok or ("is invalid" in out.getvalue())
 
 
+def paths_main(a: int, b: int, c: int, values: bool, nofile: bool, two: bool, exc: bool, slash: bool, ndocs: int) -> bool:
+    """yaml-paths prints exactly the search results: one line per matching leaf, in document order, per document."""
+    def doc(k):
+        return cmap(("k", a + k), ("l", cseq(b, c)), ("t", "x"))
+    stream = [doc(k) for k in range(ndocs)]
+    saved = Parsers.get_yaml_multidoc_data
+    Parsers.get_yaml_multidoc_data = staticmethod(lambda parser, logger, source, **kw: iter([(d, True) for d in stream]))
+    argv = ["yaml-paths", "--nostdin", "--search", "=1"]
+    if two:
+        argv += ["--search", "=2"]
+    if exc:
+        argv += ["--except", "=1"] if two else ["--except", "$1"]
+    if values:
+        argv.append("--values")
+    if nofile:
+        argv.append("--nofile")
+    if slash:
+        argv += ["--pathsep", "/"]
+    argv.append("f.yaml")
+    try:
+        with _argv(argv) as (out, err):
+            code = _run(yp.main)
+    finally:
+        Parsers.get_yaml_multidoc_data = saved
+    text = out.getvalue()
+    want = []
+    for k in range(ndocs):
+        cells = [("/k" if slash else "k", a + k), ("/l[0]" if slash else "l[0]", b), ("/l[1]" if slash else "l[1]", c)]
+        hits = []
+        for expr, val in ((("=1", 1), ("=2", 2)) if two else (("=1", 1),)):
+            for path, v in cells:
+                if v == val and not (exc and v == 1):
+                    hits.append((expr, path, v))
+        for expr, path, v in hits:
+            line = ""
+            if not nofile:
+                line += "f.yaml/%d" % k
+            if two:
+                line += "[%s]" % expr
+            line += ": " if (not nofile or two) else ""
+            line += path
+            if values:
+                line += ": " + str(v)
+            want.append(line)
+    note(argv=argv, documents=[{"k": a + k, "l": [b, c], "t": "x"} for k in range(ndocs)], exit_status=code, stdout=text,
+         expected_lines=want)
+    return code == 0 and text == "".join(w + "\n" for w in want)
+
+
 def shards(tier, seed):
     out = []
     for q in range(8):
@@ -189,4 +242,13 @@ def shards(tier, seed):
                      [("n1", "int"), ("n2", "int"), ("bad1", "int"), ("bad2", "int")],
                      ["1 <= n1 <= 3 and 1 <= n2 <= 3", "-1 <= bad1 <= 3 and -1 <= bad2 <= 3"], family="validate", budget=900,
                      desc="yaml-validate main(): two files of 1..3 documents, at most one invalid each"))
+    for two in (False, True):
+        for exc in (False, True):
+            out.append(shard(PID, "paths/%s%s" % ("two" if two else "one", "_except" if exc else ""), "harness.c16",
+                             "paths_main(a, b, c, values, nofile, %r, %r, slash, 2)" % (two, exc),
+                             [("a", "int"), ("b", "int"), ("c", "int"), ("values", "bool"), ("nofile", "bool"), ("slash", "bool")],
+                             ["0 <= a <= 1 and 1 <= b <= 2 and 1 <= c <= 2"], family="paths", budget=1800,
+                             desc="yaml-paths main() through real argparse over a 2-document stream: %s --search expression(s)%s, "
+                                  "--values, --nofile, --pathsep: stdout lines and exit status vs model"
+                                  % ("two" if two else "one", " and --except" if exc else "")))
     return out
